@@ -1,6 +1,7 @@
 (** C13 — a singly-linked list equals a reference sequence and its tail is
-    the true last element.  Statements only; proofs are in SListProofs.v. *)
-From Cstl Require Import Prelude SListModel SListProofs SListPtrModel SListPtrProofs.
+    the true last element.  Statements only; proofs are in SListProofs.v,
+    SListPtrProofs.v and SListPtrSortProofs.v. *)
+From Cstl Require Import Prelude SListModel SListProofs SListPtrModel SListPtrProofs SListPtrSortProofs.
 
 Section C13.
   Variable key : nat -> Z.
@@ -78,24 +79,23 @@ Section C13.
 End C13.
 
 (** Pointer level.  SListPtrModel re-implements slist.c on a heap of [n]
-    links (one update per C assignment).  For every history that does not use
-    sort it produces exactly the outputs of the sequence model and stays
-    related to it by the representation relation [R] (each list's chain from
-    its head link spells the sequence and ends in NULL, the tail pointer is the
-    address of the last node or of the head link, the count is the length) --
-    so everything above also holds of the pointer-level model.
-    PARTIAL: sort (merge sort on stack-local list heads) is executed by the
-    pointer model and compared with the C code on every run, but its
-    simulation proof is not done; full statement = the same without the
-    [~ In (Sort l) ops] hypothesis. *)
-Theorem C13_pointer_level_partial (key : nat -> Z) n ops :
-  (forall l, ~ In (Sort l) ops) ->
+    links (one update per C assignment; sort = the recursive merge sort on two
+    stack-local list heads, which live at the next two free object indices).
+    For every history -- all operations, sort included -- it produces exactly
+    the outputs of the sequence model and stays related to it by the
+    representation relation [R] (each list's chain from its head link spells
+    the sequence and ends in NULL, the tail pointer is the address of the last
+    node or of the head link, the count is the length) -- so everything above
+    also holds of the pointer-level model.  Proofs: SListPtrProofs.v (all
+    operations but sort), SListPtrSortProofs.v (split, recursion, merge loop,
+    final concat of sort; [sim_step], [sim_run]). *)
+Theorem C13_pointer_level (key : nat -> Z) n ops :
   match run (SListModel.step key false) (sys_init n) ops, run (p_step key) (p_init n) ops with
   | (Done a' _, outs), (Done p' _, outs') => R a' p' /\ outs = outs' /\ sys_wf a'
   | (Precond, outs), (Precond, outs') => outs = outs'
   | _, _ => False
   end.
-Proof. exact (fun H => sim_run key ops (sys_init n) (p_init n) (sys_wf_init n) (R_init n) H). Qed.
+Proof. exact (sim_run key ops (sys_init n) (p_init n) (sys_wf_init n) (R_init n)). Qed.
 
 (** Non-vacuity: a concrete history (3 lists, keys 1 0 1 0 2) reaches a
     non-trivial well-formed state through every kind of operation. *)
@@ -115,4 +115,4 @@ Print Assumptions C13_tail_is_last.
 Print Assumptions C13_push_back_appends.
 Print Assumptions C13_pop_front_empty.
 Print Assumptions C13_run_safe.
-Print Assumptions C13_pointer_level_partial.
+Print Assumptions C13_pointer_level.
